@@ -8,6 +8,7 @@ only (supporting validation, no model, no theorem) — except fzsess, for which 
 dispatcher's panic.
 """
 import hashlib
+import hmac as _hmac
 import itertools
 import struct
 
@@ -37,6 +38,7 @@ HARNESSES = [
     _h("radius", "./plugins/auth/radius/", "radius"),
     _h("shm", "./pkg/dataplane/shm/", "shm"),
     _h("local", "./plugins/dhcp4/local/", "local"),
+    _h("il2tp", "./internal/l2tp/", "il2tp"),
 ]
 ROUTE = {
     "disp": "disp",
@@ -51,7 +53,8 @@ ROUTE = {
     "sub82": "ipoe",
     "sesspap": "sess", "sesschap": "sess", "fzsess": "sess", "bkdhcp6": "sess", "bkrakick": "sess",
     "bkl2gw": "ipoe",
-    "attr80": "radius", "fzrad": "radius",
+    "attr80": "radius", "fzrad": "radius", "radreply": "radius", "radreqauth": "radius", "radma": "radius", "coaattrs": "radius",
+    "ipoeopts": "ipoe", "l2ppp": "il2tp",
     "fzgopkt": "shm",
 }
 MODELLED = sorted(k for k in ROUTE if not k.startswith("fz") and not k.startswith("bk") and not (k.startswith("bld") and k not in ("papbld", "chapbld")))
@@ -338,6 +341,86 @@ def gen_radius(rng):
     return bytes([code, rng.randrange(256)]) + be16(n + rng.choice([0, 0, 0, 0, 1, -1])) + rb(rng, 16) + ab, [(2, 2)] + shift(lf, 20)
 
 
+SECRET = b"secret"
+
+
+def py_attr80(raw):
+    """independent re-implementation of the Message-Authenticator search (offset of the value or None)"""
+    if len(raw) < 20:
+        return None
+    i = 20
+    while i + 2 <= len(raw):
+        t, l = raw[i], raw[i + 1]
+        if l < 2 or i + l > len(raw):
+            return None
+        if t == 80 and l == 18:
+            return i + 2
+        i += l
+    return None
+
+
+def rad_reply_oracles(raw, reqauth):
+    """digests isAuthenticReply compares with: (MD5 response authenticator, HMAC-MD5 message authenticator)"""
+    if len(raw) < 20:
+        return b"", b""
+    length = (raw[2] << 8) | raw[3]
+    if length < 20 or length > len(raw):
+        return b"", b""
+    r = raw[:length]
+    d1 = hashlib.md5(r[:4] + reqauth + r[20:] + SECRET).digest()
+    off = py_attr80(r)
+    d2 = b""
+    if off is not None:
+        tmp = bytearray(r)
+        tmp[4:20] = reqauth
+        tmp[off:off + 16] = bytes(16)
+        d2 = _hmac.new(SECRET, bytes(tmp), hashlib.md5).digest()
+    return d1, d2
+
+
+def rad_sign_reply(raw, reqauth, rng):
+    """make a structurally valid reply authentic (most of the time)"""
+    if len(raw) < 20:
+        return raw
+    raw = bytearray(raw)
+    raw[2:4] = be16(len(raw))
+    off = py_attr80(bytes(raw))
+    if off is not None:
+        tmp = bytearray(raw)
+        tmp[4:20] = reqauth
+        tmp[off:off + 16] = bytes(16)
+        raw[off:off + 16] = _hmac.new(SECRET, bytes(tmp), hashlib.md5).digest()
+    raw[4:20] = hashlib.md5(bytes(raw[:4]) + reqauth + bytes(raw[20:]) + SECRET).digest()
+    return bytes(raw)
+
+
+def rad_coa_oracles(raw):
+    d_req = hashlib.md5(raw[:4] + bytes(16) + raw[20:] + SECRET).digest() if len(raw) >= 20 else b""
+    off = py_attr80(raw)
+    d_ma = b""
+    if off is not None:
+        tmp = bytearray(raw)
+        tmp[4:20] = bytes(16)
+        tmp[off:off + 16] = bytes(16)
+        d_ma = _hmac.new(SECRET, bytes(tmp), hashlib.md5).digest()
+    return d_req, d_ma
+
+
+def rad_sign_coa(raw):
+    if len(raw) < 20:
+        return raw
+    raw = bytearray(raw)
+    raw[2:4] = be16(len(raw))
+    off = py_attr80(bytes(raw))
+    if off is not None:
+        tmp = bytearray(raw)
+        tmp[4:20] = bytes(16)
+        tmp[off:off + 16] = bytes(16)
+        raw[off:off + 16] = _hmac.new(SECRET, bytes(tmp), hashlib.md5).digest()
+    raw[4:20] = hashlib.md5(bytes(raw[:4]) + bytes(16) + bytes(raw[20:]) + SECRET).digest()
+    return bytes(raw)
+
+
 def eth_frames(rng):
     """a few well-formed frames for the gopacket fuzz (supporting validation only)."""
     mac = b"\xaa\x42\xa1\x0a\x54\x97\x52\x54\x00\x11\x22\x33"
@@ -475,6 +558,8 @@ def gen_cases(rng, tier, budget):
                 for k in range(len(fr)):
                     add(case("disp", [p, 1, 0, 0], fr[:k]))
     for s in short_strings(tier, True):
+        add(case("l2ppp", [1, 0, 0], s))
+        add(case("l2ppp", [1, 0, 1], b"\xff\x03" + s))
         add(case("disp", [0xc021, 1, 0, 0], s))
         if len(s) < 2 or q:
             add(case("disp", [0xc223, 0, 0, 1], s))
@@ -484,6 +569,8 @@ def gen_cases(rng, tier, budget):
 
     def disp_emit(b):
         add(case("disp", [rng.choice(protos), rng.choice([0, 1, 2, 3]), 0, rng.choice([0, 1, 2])], b))
+        pre = rng.choice([b"", b"\xff\x03", b"\xff", b"\xff\x03\xff\x03"])
+        add(case("l2ppp", [rng.randrange(2), rng.randrange(2), rng.randrange(2)], pre + be16(rng.choice(protos)) + b))
         add(case("fzsess", [rng.choice(protos[:6]), rng.choice([1, 2, 3, 4])], b))
     family(rng, tier, lambda r: ppp_frame(r.choice([1, 2, 3, 4, 5, 6, 7, 8, 9, 10, 11, 13]), r.randrange(256), gen_ppp_opts(r)[0] if r.random() < 0.7 else rb(r, r.randint(0, 12))),
            nv, nm, disp_emit)
@@ -648,7 +735,40 @@ def gen_cases(rng, tier, budget):
     for L in range(256):
         add(case("attr80", [], b"\x2b\x01\x00\x26" + bytes(16) + bytes([80, L]) + bytes(16)))
         add(case("attr80", [], b"\x2b\x01\x00\x26" + bytes(16) + bytes([1, L]) + bytes(3) + b"\x50\x12" + bytes(16)))
-    family(rng, tier, gen_radius, nv, 2 * nm, lambda b: (add(case("attr80", [], b)), add(case("fzrad", [], b))))
+    def rad_emit(b):
+        add(case("attr80", [], b))
+        add(case("fzrad", [], b))
+        ra = rb(rng, 16)
+        r = rad_sign_reply(b, ra, rng) if rng.random() < 0.6 else b
+        if rng.random() < 0.3:
+            r = r + rb(rng, rng.choice([1, 4]))          # padding beyond the declared length
+        d1, d2 = rad_reply_oracles(r, ra)
+        add(case("radreply", [], r, d1, d2, ra))
+        c = rad_sign_coa(b) if rng.random() < 0.6 else b
+        dq, dm = rad_coa_oracles(c)
+        add(case("radreqauth", [], c, dq))
+        add(case("radma", [], c, dm))
+    family(rng, tier, gen_radius, nv, 2 * nm, rad_emit)
+    for n in range(0, 24):
+        rad_emit(bytes(n))
+        rad_emit(b"\x02\x01" + be16(n) + bytes(20))
+    for _ in range(150 * scale):
+        k = rng.randint(0, 6)
+        tys = [rng.choice([1, 6, 8, 32, 33, 44, 55, 80, 168, 4, 26, 101, rng.randrange(256)]) for _ in range(k)]
+        vals = []
+        for t in tys:
+            if t in (6, 55, 8):
+                vals.append(rng.choice([be32(8), be32(rng.randrange(1 << 32)), rb(rng, 3), rb(rng, 5), b""]))
+            elif t == 168:
+                vals.append(rb(rng, rng.choice([16, 16, 15, 0])))
+            else:
+                vals.append(rb(rng, rng.choice([0, 0, 1, 3, 8])))
+        nas = rng.choice([b"", b"nas", vals[tys.index(32)] if 32 in tys else b"x"])
+        add(case("coaattrs", tys, nas, *vals))
+        k = rng.randint(0, 6)
+        tys = [rng.choice([53, 53, 12, 61, 82, 51, 50, 0, 255, rng.randrange(256)]) for _ in range(k)]
+        vals = [rb(rng, rng.choice([1, 1, 0, 2, 4, 7])) for _ in tys]
+        add(case("ipoeopts", [rng.choice([12, 61, 82, 51, 53, 7])] + tys, *vals))
 
     # --- build -> parse: Go builder output fed to the Go parser, against model builder + model parser -----
     for _ in range(120 * scale):
